@@ -93,7 +93,9 @@ def check_case(alg, ps, box, st, out, kinds):
             bad.append(("exact", f"output {out} is not the bounds hull {h}"))
         if st != 0 and not bad:
             st2, out2 = nv.impl_prop(alg, ps, out)
-            if st2 == 0 or [tuple(o) for o in out2] != [tuple(o) for o in out]:
+            if out2 is None:
+                bad.append(("exact", f"second call on the result {out} does not return a box: {st2} (index error / no return)"))
+            elif st2 == 0 or [tuple(o) for o in out2] != [tuple(o) for o in out]:
                 bad.append(("exact", f"second call changes the result: {st2} {out2}"))
     if "exact" in kinds and alg == "affine_eq":
         exp = one_round_affine_eq(ps, box)
